@@ -17,13 +17,13 @@ ID = "C13"
 LEVEL = "exploration"
 RULE = ("full-rank Gaussians (same family as C12, rank >= dim) over 1-3 real inputs in any interleaving with 0-2 batch inputs: every "
         "non-empty subset of real inputs is marginalised (contiguous and interleaved blocks), in one step and in two steps in both orders, "
-        "before and after evaluating the kept inputs; log_normalizer; plate sums; mixture reduction over integer inputs; Integrate against "
+        "before and after evaluating the kept inputs; Gaussians whose rank lies between the dimension of the integrated block and the full dimension;  log_normalizer; plate sums; mixture reduction over integer inputs; Integrate against "
         "a Variable and against another Gaussian; moment matching of mixtures (mass, mean, covariance); rank-deficient blocks must raise. "
         "A case is (input signature, parametrisation, rank, operation, subset); non-trivial when compared at >=2 points; distinct by that tuple + data hash")
 ASSUMPTIONS = ["fv/dense.py closed forms; numpy.linalg", "comparison at rtol 1e-5 on well-conditioned factors"]
 MIN_NONTRIVIAL = {"quick": 3000, "thorough": 30000}
 REQUIRED_COUNTERS = ["marginalize:ok", "marginalize-two-step:ok", "eval-then-marginalize:ok", "log_normalizer:ok", "plate-sum:ok", "mixture-reduce:ok",
-                     "integrate-variable:ok", "integrate-gaussian:ok", "moment-matching:ok", "deficient:raised-as-required"]
+                     "integrate-variable:ok", "integrate-gaussian:ok", "moment-matching:ok", "deficient:raised-as-required", "marginalize-block-rank:compared-ok"]
 
 
 def plan(tier, seed):
@@ -121,6 +121,7 @@ def run_case(rng, res, riders, i):
             return None
         riders.hold(R)
         if compare_fn(R, ref, exp_inputs, rng, res, label, desc + " " + detail, case, must_complete=must_complete):
+            res.count("%s:compared-ok" % label)
             oks += 1
         return R
 
@@ -147,6 +148,38 @@ def run_case(rng, res, riders, i):
             rest2 = OrderedDict((k, dm) for k, dm in rest.items() if k not in kept)
             attempt("eval-then-marginalize", lambda S=S, pt=pt: g(**{k: Tensor(v) for k, v in pt.items()}).reduce(ops.logaddexp, frozenset(S)),
                     lambda env, m=m, pt=pt: m({**env, **pt}), rest2, detail="evaluate %s then reduce %s" % (kept, S))
+    # (a') rank between the dimension of the integrated block and the full dimension: the block's own precision is invertible, so
+    # the marginal is the closed form although the Gaussian as a whole is rank-deficient (results may be improper in the kept inputs)
+    proper = [S for S in subsets if len(S) < len(reals)]
+    if proper:
+        S = proper[int(rng.integers(len(proper)))]
+        dim_s = sum(int(np.prod(inputs[k][1], dtype=int)) for k in S)
+        if dim_s < d.dim:
+            r = int(rng.integers(dim_s, d.dim))
+            spec_r = random_gaussian(rng, inputs, rank=r, param="white_vec+prec_sqrt")
+            dr = spec_r.dense
+            off = dr.offsets()
+            idx = np.concatenate([np.arange(*off[k]) for k in S]).astype(int)
+            conds = [np.linalg.cond(dr.params(ie)[0][np.ix_(idx, idx)]) for ie in dr.int_points()]
+            if spec_r.rank == r and max(conds) < 1e3:
+                try:
+                    gr = spec_r.build()
+                except Exception as e:
+                    gr = None
+                    res.count("block-rank:construct-declined:%s" % type(e).__name__)
+                if gr is not None:
+                    riders.before(list(spec_r.kwargs.values()))
+                    rest = OrderedDict((k, dm) for k, dm in inputs.items() if k not in S)
+                    mr = dr.marginalize(S)
+                    old_desc = desc
+                    desc = "G[%s; same inputs] (rank %d, integrated block of dimension %d, total %d)" % (spec_r.label, r, dim_s, d.dim)
+                    attempt("marginalize-block-rank", lambda: gr.reduce(ops.logaddexp, frozenset(S)), mr, rest, must_complete=False, detail="reduce over %s" % (S,))
+                    if len(S) >= 2:
+                        attempt("marginalize-block-rank", lambda: gr.reduce(ops.logaddexp, frozenset(S[:1])).reduce(ops.logaddexp, frozenset(S[1:])), mr, rest,
+                                must_complete=False, detail="reduce %s then %s" % (S[:1], S[1:]))
+                    desc = old_desc
+            else:
+                res.count("block-rank:skipped-ill-conditioned")
     # (b) log_normalizer
     from funsor.gaussian import Gaussian
 
